@@ -290,6 +290,22 @@ def encodeOrientations (finish : RAnsBitEnc → Bytes) (orient : Array Bool) : B
     (RAnsBitEnc.start, true)).1
   writeLE 4 (orient.size % 2 ^ 32) ++ finish e
 
+/-- one entry of `MeshPredictionSchemeGeometricNormalEncoder::ComputeCorrectionValues`: the predicted
+    normal `pred` is canonicalized, both directions are converted to octahedral coordinates, the
+    corrections of the entry `o` against both are compared (`ModMax`, `AbsSum`); result: the flip bit
+    and the correction (`MakePositive`) -/
+def normalCorrection (ot : OctaT) (pred : Int × Int × Int) (o : Int × Int) : Bool × Int × Int :=
+  let absSum2 := fun (p : Int × Int) => Eb.iabs p.1 + Eb.iabs p.2
+  let v := Octa.canonicalizeIntVec ot pred
+  let posOct := Octa.intVecToCoords ot v
+  let negOct := Octa.intVecToCoords ot (wrap32 (-v.1), wrap32 (-v.2.1), wrap32 (-v.2.2))
+  let pc := Octa.encCorr ot o posOct
+  let ng := Octa.encCorr ot o negOct
+  let pc := (Octa.modMax ot pc.1, Octa.modMax ot pc.2)
+  let ng := (Octa.modMax ot ng.1, Octa.modMax ot ng.2)
+  if absSum2 pc < absSum2 ng then (false, Octa.makePositive ot pc.1, Octa.makePositive ot pc.2)
+  else (true, Octa.makePositive ot ng.1, Octa.makePositive ot ng.2)
+
 /-- `MeshPredictionSchemeGeometricNormalEncoder::ComputeCorrectionValues`: corrections (already
     positive) and the flip bits in encoding order; `ot` = tool box / transform for
     `quantization_bits` -/
@@ -297,27 +313,14 @@ def geometricNormalEncode (md : MeshData) (ps : PosSource) (ot : OctaT) (data : 
     R (Array Int × Array Bool) := do
   let mut out := Array.replicate data.size (0 : Int)
   let mut flips : Array Bool := Array.mkEmpty md.d2c.size
-  let absSum2 := fun (p : Int × Int) => Eb.iabs p.1 + Eb.iabs p.2
   for p in [0:md.d2c.size] do
-    let corner := md.d2c[p]!
-    let pred ← normalPredict md ps corner
-    let (x, y, z) := Octa.canonicalizeIntVec ot pred
-    let posOct := Octa.intVecToCoords ot (x, y, z)
-    let negOct := Octa.intVecToCoords ot (wrap32 (-x), wrap32 (-y), wrap32 (-z))
+    let pred ← normalPredict md ps (md.d2c[p]!)
     let o0 ← rdI "in_data" data (2 * p)
     let o1 ← rdI "in_data" data (2 * p + 1)
-    let pc := Octa.encCorr ot (o0, o1) posOct
-    let ng := Octa.encCorr ot (o0, o1) negOct
-    let pc := (Octa.modMax ot pc.1, Octa.modMax ot pc.2)
-    let ng := (Octa.modMax ot ng.1, Octa.modMax ot ng.2)
-    if absSum2 pc < absSum2 ng then
-      flips := flips.push false
-      out ← wrI "out_corr" out (2 * p) (Octa.makePositive ot pc.1)
-      out ← wrI "out_corr" out (2 * p + 1) (Octa.makePositive ot pc.2)
-    else
-      flips := flips.push true
-      out ← wrI "out_corr" out (2 * p) (Octa.makePositive ot ng.1)
-      out ← wrI "out_corr" out (2 * p + 1) (Octa.makePositive ot ng.2)
+    let r := normalCorrection ot pred (o0, o1)
+    flips := flips.push r.1
+    out ← wrI "out_corr" out (2 * p) r.2.1
+    out ← wrI "out_corr" out (2 * p + 1) r.2.2
   pure (out, flips)
 
 /-- `PredictionSchemeDeltaEncoder::ComputeCorrectionValues` with the canonicalized octahedron
